@@ -210,7 +210,8 @@ class Session:
         if op["obj"] in ns.dead or op["obj"] not in ns:
             return {"r": "skip"}
         try:
-            return {"r": "ok", "str": str(ns[op["obj"]])}
+            target = ns[op["obj"]]
+            return {"r": "ok", "str": str(target), "cls": type(target).__name__}
         except Exception as e:  # noqa: BLE001
             return {"r": "exc", **_exc_info(e, self.scratch)}
 
